@@ -209,7 +209,7 @@ impl Property for C08 {
     fn cases(&self, tier: Tier) -> u32 {
         match tier {
             Tier::Quick => 12_000,
-            Tier::Thorough => 80_000,
+            Tier::Thorough => 500_000,
         }
     }
 
